@@ -77,6 +77,14 @@ func one(store string, L int, cuts []int) *scenario {
 	return &scenario{Store: store, Pubs: []pub{{Obj: "/a", Ver: 1, L: L, Cuts: cuts}}, Cons: []con{{Obj: "/a", Ver: noVer}}}
 }
 
+// styled gives every consumer of the scenario the given style.
+func styled(sc *scenario, style string) *scenario {
+	for i := range sc.Cons {
+		sc.Cons[i].Style = style
+	}
+	return sc
+}
+
 func perms(v []int64) [][]int64 {
 	if len(v) <= 1 {
 		return [][]int64{append([]int64{}, v...)}
@@ -270,6 +278,101 @@ func family(fam string, S int, th bool) []*scenario {
 		sc := one("bolt", segs(4), nil)
 		sc.Perm = true
 		out = append(out, sc)
+		// every delivery order for each consumer style that keeps what Content() returned (the
+		// pieces then have every combination of sizes the order allows)
+		for _, style := range keptStyles {
+			sc := styled(one("mem", segs(4), nil), style)
+			sc.Perm = true
+			out = append(out, sc)
+		}
+	case "style", "styleS":
+		// consumer styles (con.Style): the application keeps the slices Content() returned and joins
+		// them at completion / reads only once at completion / reads in every second callback.
+		// style: every length, bolt, and a client re-used for three fetches (default schedule; thorough
+		// also k=1); styleS: short objects for the deviation bound (every delivery order: family perm)
+		for _, style := range keptStyles {
+			if fam == "style" {
+				for _, L := range lengths {
+					out = append(out, styled(one("mem", L, nil), style))
+				}
+				out = append(out, styled(one("bolt", segs(3), nil), style), styled(one("bolt", segs(12), nil), style))
+			} else {
+				ns := []int{1, 2, 3, 4}
+				if !scaled {
+					ns = []int{1, 2, 3}
+				}
+				for _, n := range ns {
+					out = append(out, styled(one("mem", segs(n), nil), style))
+				}
+				out = append(out, styled(one("mem", 2*S, nil), style))
+			}
+			if fam == "styleS" && !scaled {
+				continue // (segment size 8000: the multi-fetch scenarios run on the default schedule only)
+			}
+			// two concurrent fetches of the same style, and one next to a copying consumer
+			two := []pub{{Obj: "/a", Ver: 1, L: 2*S + 1}, {Obj: "/b", Ver: 1, L: 3 * S}}
+			out = append(out, &scenario{Store: "mem", Pubs: two, Cons: []con{{Obj: "/a", Ver: noVer, Style: style}, {Obj: "/b", Ver: noVer, Style: style}}})
+			out = append(out, &scenario{Store: "mem", Pubs: two, Cons: []con{{Obj: "/a", Ver: noVer}, {Obj: "/b", Ver: 1, Style: style}}})
+			// a fetch that fails half-way (segment 2 of 4 is gone): what was delivered is a prefix
+			out = append(out, &scenario{Store: "mem", Pubs: []pub{{Obj: "/a", Ver: 1, L: 3*S + 1}}, Rems: []target{{Obj: "/a", Ver: 1, Seg: 2}}, Cons: []con{{Obj: "/a", Ver: noVer, Style: style}}})
+			// the same client fetches another object afterwards: what the first consumer kept stays
+			if fam == "style" {
+				out = append(out, &scenario{Store: "mem", Pubs: two, Seq: seq(con{Obj: "/a", Ver: noVer, Style: style}, con{Obj: "/b", Ver: noVer, Style: style}, con{Obj: "/a", Ver: 1})})
+			}
+		}
+	case "typed", "typedS": // typedS: two of the five scenario kinds (larger deviation bound)
+		// look-alike names: objects whose names differ in the TYPE of one component only, or where a
+		// generic component of one object has the value bytes of a keyword / version component of
+		// the other: /p/doc (its metadata packet lives under /p/doc/32=metadata) next to the
+		// application object /p/doc/metadata; /p/item next to /p/32=item; /p/n (version 2, packets
+		// /p/n/v=2/...) next to /p/n/%02. Each object is consumed; removing one leaves the other.
+		pairs := [][2]string{{"/p/doc", "/p/doc/metadata"}, {"/p/item", "/p/32=item"}, {"/p/n", "/p/n/%02"}}
+		for _, st := range []string{"mem", "bolt"} {
+			for _, pr := range pairs {
+				a, b := pr[0], pr[1]
+				// the look-alike carries the larger version (a merged subtree would make it the newest)
+				pa, pb := pub{Obj: a, Ver: 2, L: 2*S + 1}, pub{Obj: b, Ver: 5, L: S + 2}
+				both := []con{{Obj: a, Ver: noVer}, {Obj: b, Ver: noVer}}
+				out = append(out, &scenario{Store: st, Pubs: []pub{pa, pb}, Cons: both})
+				// one of the two removed (all its packets): the other one is still served, the removed one is not
+				out = append(out, &scenario{Store: st, Pubs: []pub{pa, pb}, Cons: both, Rems: []target{{Obj: b, Ver: noVer, Seg: -1, Prefix: true}}})
+				if fam == "typedS" {
+					continue
+				}
+				// other publication order, the other one newer, consumed one after the other
+				out = append(out, &scenario{Store: st, Pubs: []pub{{Obj: b, Ver: 2, L: S + 2}, {Obj: a, Ver: 5, L: 2*S + 1}}, Seq: seq(both[1], both[0])})
+				out = append(out, &scenario{Store: st, Pubs: []pub{pa, pb}, Cons: both, Rems: []target{{Obj: a, Meta: true, Ver: noVer, Seg: -1, Prefix: true}, {Obj: a, Ver: 2, Seg: -1, Prefix: true}}})
+				// a single packet of the look-alike removed by exact name
+				out = append(out, &scenario{Store: st, Pubs: []pub{pa, pb}, Cons: both[:1], Rems: []target{{Obj: b, Ver: 5, Seg: 0}, {Obj: b, Meta: true, Ver: 5, Seg: 0}}})
+			}
+		}
+	case "long":
+		// scale: objects of about a thousand segments (thresholds in code tend to be round numbers:
+		// 1000, 1024) fetched on the default schedule by every consumer style; each must complete
+		// once with the right bytes. A handful of long runs, not a search.
+		ns := []int{1000, 1023, 1024, 1025, 1100}
+		styles := append([]string{""}, keptStyles...)
+		if !scaled {
+			ns, styles = []int{1025}, []string{"", "late"}
+		}
+		for i, n := range ns {
+			for _, style := range styles {
+				L := n * S
+				if i%2 == 1 {
+					L = segs(n)
+				}
+				out = append(out, styled(one("mem", L, nil), style))
+			}
+		}
+		if scaled {
+			out = append(out, styled(one("bolt", 1025*S, nil), "late"), styled(one("bolt", segs(1100), nil), "keep"))
+			// two long objects at once (the fetcher serves them round-robin within one window)
+			two := []pub{{Obj: "/a", Ver: 1, L: segs(1025)}, {Obj: "/b", Ver: 1, L: 1100 * S}}
+			for _, style := range styles {
+				out = append(out, &scenario{Store: "mem", Pubs: two, Cons: []con{{Obj: "/a", Ver: noVer, Style: style}, {Obj: "/b", Ver: noVer, Style: style}}})
+			}
+			out = append(out, &scenario{Store: "mem", Pubs: two, Cons: []con{{Obj: "/a", Ver: noVer, Style: "late"}, {Obj: "/b", Ver: noVer}}})
+		}
 	case "ver":
 		var orders [][]int64
 		orders = append(orders, perms([]int64{1, 2, 3})...)
@@ -426,22 +529,25 @@ func configs(th bool) []explore.Config {
 
 func allConfigs(th bool) []explore.Config {
 	if object.VerifSegmentSize() >= 100 { // real segment size (child build)
-		c := []explore.Config{cfg("ver", 0), cfg("rem", 0), cfg("reuse", 0), cfg("vbound", 0), cfg("cache", 0), cfg("lat", 0), cfg("latS", 1), cfg("perm", -1), cfg("fifo", 0), cfg("sched1", 1), cfg("sched2", 2)}
+		c := []explore.Config{cfg("ver", 0), cfg("rem", 0), cfg("reuse", 0), cfg("vbound", 0), cfg("cache", 0), cfg("lat", 0), cfg("style", 0), cfg("typed", 0), cfg("latS", 1), cfg("styleS", 1), cfg("perm", -1), cfg("fifo", 0), cfg("sched1", 1), cfg("sched2", 2)}
+		if th {
+			c = append(c, cfg("long", 0))
+		}
 		return c
 	}
 	// the k=0 runs come first so that a defect visible on the default schedule is reported with
 	// that (shortest) history
-	c := []explore.Config{cfg("ver", 0), cfg("rem", 0), cfg("dual", 0), cfg("slack", 0), cfg("reuse", 0), cfg("vbound", 0), cfg("cache", 0), cfg("lat", 0), cfg("cache", 1), cfg("reuseS", 1),
-		cfg("ver", 1), cfg("rem", 1), cfg("dual", 1), cfg("slack", 1), cfg("latS", 1), cfg("perm", -1), cfg("fifo", 0), cfg("sched1", 1), cfg("sched2", 2), histCfg(2)}
+	c := []explore.Config{cfg("ver", 0), cfg("rem", 0), cfg("dual", 0), cfg("slack", 0), cfg("reuse", 0), cfg("vbound", 0), cfg("cache", 0), cfg("lat", 0), cfg("style", 0), cfg("typed", 0), cfg("long", 0), cfg("cache", 1), cfg("reuseS", 1),
+		cfg("ver", 1), cfg("rem", 1), cfg("dual", 1), cfg("slack", 1), cfg("typedS", 1), cfg("styleS", 1), cfg("latS", 1), cfg("perm", -1), cfg("fifo", 0), cfg("sched1", 1), cfg("sched2", 2), histCfg(2)}
 	if th {
-		c = []explore.Config{cfg("ver", 0), cfg("rem", 0), cfg("dual", 0), cfg("slack", 0), cfg("reuse", 0), cfg("vbound", 0), cfg("cache", 0), cfg("lat", 0), cfg("cache", 2), cfg("reuseS", 2),
-			cfg("ver", 2), cfg("rem", 2), cfg("dual", 2), cfg("slack", 2), cfg("lat", 1), cfg("latT", 2), cfg("perm", -1), cfg("tiny", -1), cfg("fifo", 0),
+		c = []explore.Config{cfg("ver", 0), cfg("rem", 0), cfg("dual", 0), cfg("slack", 0), cfg("reuse", 0), cfg("vbound", 0), cfg("cache", 0), cfg("lat", 0), cfg("style", 0), cfg("typed", 0), cfg("long", 0), cfg("cache", 2), cfg("reuseS", 2),
+			cfg("ver", 2), cfg("rem", 2), cfg("dual", 2), cfg("slack", 2), cfg("typed", 1), cfg("typedS", 2), cfg("style", 1), cfg("styleS", 2), cfg("lat", 1), cfg("latT", 2), cfg("perm", -1), cfg("tiny", -1), cfg("fifo", 0),
 			cfg("sched1", 1), histCfg(3), cfg("sched3", 3), cfg("sched2", 2)}
 	}
 	return c
 }
 
-const rule = "two real object.Client instances on a harness ndn.Engine; per scenario (store, publications with content length/buffer split/version, removals, consumers) every history that departs at most k times from the default schedule (client select arms in source order, FIFO delivery, timeouts only for lost Interests) is run to completion; deviations: another ready select arm, out-of-order delivery, packet loss, early/late timeout, a fatal per-Interest result (Nack, engine error) for a metadata or segment Interest, the consumer's face going down / coming back before an Interest is expressed (families ver, rem, dual, slack, lat, latS, latT, reuseS, cache), removal during the fetch; network events carry virtual times (arrival = send time + the scenario's round-trip time, expiry = send time + lifetime + 10 ms) and happen in an order consistent with them; families lat/latS/latT run networks with a round-trip time of 50 ms and 300 ms; every wire the producer's store hands out is kept and re-compared after every later store transaction and after four more at the end of the history; family perm explores every delivery order with no bound; a case is non-trivial when it fetched an object of >=2 segments"
+const rule = "two real object.Client instances on a harness ndn.Engine; per scenario (store, publications with content length/buffer split/version, removals, consumers) every history that departs at most k times from the default schedule (client select arms in source order, FIFO delivery, timeouts only for lost Interests) is run to completion; deviations: another ready select arm, out-of-order delivery, packet loss, early/late timeout, a fatal per-Interest result (Nack, engine error) for a metadata or segment Interest, the consumer's face going down / coming back before an Interest is expressed (families ver, rem, dual, slack, lat, latS, latT, reuseS, cache), removal during the fetch; network events carry virtual times (arrival = send time + the scenario's round-trip time, expiry = send time + lifetime + 10 ms) and happen in an order consistent with them; families lat/latS/latT run networks with a round-trip time of 50 ms and 300 ms; every wire the producer's store hands out is kept and re-compared after every later store transaction and after four more at the end of the history; family perm explores every delivery order with no bound; consumer styles (families style, styleS, perm, long): the application copies each Content() piece at once / keeps the returned slices and joins them at completion / reads once at completion / reads in every second callback, kept slices are re-compared with a copy taken when they were returned; family typed publishes and consumes objects whose names differ in component type only (/p/doc next to /p/doc/metadata, /p/item next to /p/32=item, /p/n version 2 next to /p/n/%02), with removal of either; family long fetches objects of 1000, 1023, 1024, 1025 and 1100 segments (and two at once) on the default schedule in every consumer style; a case is non-trivial when it fetched an object of >=2 segments"
 
 var assumptions = []string{
 	"the select in Client.run() is replaced by hook VerifStep (one arm per call, same arm bodies); the engine callbacks only perform channel sends, so arm-granular interleaving covers the goroutine interleavings of the production client",
@@ -459,6 +565,9 @@ var assumptions = []string{
 	"BoltStore runs with NoSync on a per-process file under /tmp that is emptied between instances (durability is not part of the property)",
 	"fetcher.doCheck termination is predicted by a transcription of its loop (hook VerifDoCheckSpins) because a spinning goroutine cannot be interrupted; an unpredicted hang is turned into CHECK-ERROR by a watchdog",
 	"store-level oracle: no packet name is a prefix of another packet name; among packets of the newest version under a prefix any may be returned",
+	"consumer styles: a slice returned by ConsumeState.Content() belongs to the application (nothing in the API says it is valid only until the next call): styles keep/alt/late hold the slices without copying and the harness compares each with a private copy taken when it was returned, after every later callback (all of them for the first 64 callbacks, then every 64th, and at completion) and at the end of the history. Style late never calls Content() before IsComplete(): a fetch must complete without the application draining the buffer",
+	"look-alike names: name components are compared by type and value (enc.Name.Equal); the store-level pass has its own universe of 8 packets / 23 operations (depth 3, direct and transaction mode) with sibling components that differ in type only (32=metadata / metadata, 32=item / item, v=1 / %01, seg=1 / off=1)",
+	"long objects (1000..1100 segments, scaled build: 4..4.4 kB) run on the default schedule only (k=0); thresholds other than those within 1000..1100 segments are not probed; the real-segment-size child runs 1025 segments (8.2 MB) in the thorough tier only",
 }
 
 func main() {
@@ -548,7 +657,7 @@ func main() {
 		ID: "C15", PanicClause: "C15.panic", Build: build, Configs: configs,
 		Budget: func(th bool) time.Duration {
 			if th {
-				return 14 * time.Minute
+				return 17 * time.Minute // (14 min + the round-7 configurations style k=1, styleS k=2, typed k=1, typedS k=2)
 			}
 			return 70 * time.Second
 		},
@@ -599,6 +708,10 @@ func main() {
 			cov["latency_model"] = map[string]any{"rtt_ms_per_scenario": []int{0, 50, 300}, "assumed_rtt_bound_ms": int(rttMax / time.Millisecond),
 				"timeout_margin_ms": int(timeoutMargin / time.Millisecond), "default_lifetime_ms": int(defaultInterestLife / time.Millisecond),
 				"configs_with_rtt_above_0": []string{"lat", "latS", "latT"}, "lat_scenarios": len(family("lat", object.VerifSegmentSize(), th)), "latS_scenarios": len(family("latS", object.VerifSegmentSize(), th))}
+			cov["consumer_styles"] = map[string]any{"styles": append([]string{"copy"}, keptStyles...), "configs": []string{"style", "styleS", "perm", "long"},
+				"style_scenarios": len(family("style", object.VerifSegmentSize(), th)), "styleS_scenarios": len(family("styleS", object.VerifSegmentSize(), th))}
+			cov["lookalike_names"] = map[string]any{"configs": []string{"typed", "typedS"}, "scenarios": len(family("typed", object.VerifSegmentSize(), th)), "pairs": []string{"/p/doc + /p/doc/metadata", "/p/item + /p/32=item", "/p/n (v=2) + /p/n/%02"}, "store_pass": "store_differential.lookalike_names"}
+			cov["long_objects"] = map[string]any{"configs": []string{"long"}, "segments": []int{1000, 1023, 1024, 1025, 1100}, "scenarios": len(family("long", object.VerifSegmentSize(), th)), "schedule": "default (k=0)"}
 			cov["face_fault_configs"] = []string{"ver", "rem", "dual", "slack", "lat", "latS", "latT", "reuseS", "cache"}
 			cov["store_wires_held"] = "every Get answer taken by the harness and every reply of the producer's handler, in every configuration; re-compared after each later Produce/Remove and after 4 extra transactions at the end of each finished history"
 			removeTmp()
